@@ -6,7 +6,7 @@ from tools import ks
 from tools.vlib import hx
 
 MODULE = "PropC10"
-THEOREMS = ["C10_code_conforms", "C10_order_facts", "C10_record_fields", "C10_upstream_is_lineage", "C10_tags_propagate", "C10_substream_tags_refuted", "C10_cone_conforms"]
+THEOREMS = ["C10_code_conforms", "C10_order_facts", "C10_record_fields", "C10_upstream_is_lineage", "C10_tags_propagate", "C10_substream_tags_refuted", "C10_cone_conforms", "C10_every_final_output_is_audited", "C10_audit_order_in_code", "C10_late_record_refuted", "C10_audited_nonvacuous"]
 
 
 def build(rng, i):
